@@ -18,14 +18,13 @@ from harness.core import q, z, coq_list, coq_bool, coq_opt, coq_str
 PID = "C12"
 GEN_GROUPS = ["C12Shape"]
 TARGETS = ["coq/Props/C12.vo", "coq/Model/Network.vo", "coq/Model/Current.vo"]
-CASES = {"quick": 300, "thorough": 8000}
+CASES = {"quick": 300, "thorough": 6000}
 CORR_HEADER = ("From Coq Require Import ZArith QArith List String.\n"
                "From ACN Require Import Base.Num Model.Current Model.Network.\nImport ListNotations.\n"
                "Open Scope string_scope.\nOpen Scope Q_scope.\n")
 CHECK_FN = "check_c12"
 SHARD = 100
 F = fractions.Fraction
-KNOWN_SIG_INPLACE = "inplace-sum-cut-to-left-index"
 
 RULE = ("one case = one ChargingNetwork driven through <= 30 operations (register_evse in random order incl. re-registration, "
         "add/remove/update_constraint with explicit / default / colliding names, Currents from random expression trees over "
@@ -41,8 +40,9 @@ ASSUMPTIONS = [
     "pandas > '1.4.0' in the string comparison of add_constraint (the concat branch); asserted by the harness on every run",
     "station names are numbered by their rank in Python string order (pandas sorts the union of two different indexes)",
     "constraint_current is exercised with linear=True; the phase-aware form belongs to C06",
-    "which in-place semantics applies to `a += b` (pandas' reindex-to-left or the class's own operator) is read from "
-    "Current.__dict__ on every run and then confirmed by the correspondence",
+    "which in-place semantics applies to `a += b` / `a -= b` (the class's own operators, or pandas' reindex-to-left when it "
+    "defines none) is read from the class body by tools/gen_c12.py and from Current.__dict__ by the harness on every run; "
+    "the two must agree and the correspondence confirms the behaviour",
 ]
 TRUSTED_EXTRA = ["harness/c12.py: Ref (independent exact book-keeping used by the monitor), station-name -> rank encoding, NaN -> None encoding"]
 
@@ -508,8 +508,8 @@ def make_case(ops, mode=None, shrink_ok=False):
     errs = sorted({b["err"] for b in obs if b.get("err")})
     case["kind"] = "seq/%s" % ("+".join(e[:5] for e in errs) if errs else "clean")
     case["nontrivial"] = nadds > 0
-    case["sig"] = KNOWN_SIG_INPLACE if (why and why.startswith(KNOWN_SIG_INPLACE)) else ops
-    if why and not why.startswith(KNOWN_SIG_INPLACE) and shrink_ok:
+    case["sig"] = ops
+    if why and shrink_ok:
         # the property fails on the implementation: keep a minimised operation list for the replay file
         try:
             inp["shrunk_ops"] = shrink(ops, lambda cand: _fails(cand, mode))
@@ -520,12 +520,29 @@ def make_case(ops, mode=None, shrink_ok=False):
 
 def _fails(ops, mode):
     r = monitor(dict(input=dict(ops=ops, mode=mode), impl=run_impl(ops)))
-    return bool(r) and not r.startswith(KNOWN_SIG_INPLACE)
+    return bool(r)
+
+
+def corpus():
+    """minimised past failures (corpus/C12/*.json): always run first"""
+    import glob, json, os
+    from harness.core import ROOT
+    alg, seq = [], []
+    for p in sorted(glob.glob(os.path.join(ROOT, "corpus", "C12", "*.json"))):
+        with open(p) as f:
+            d = json.load(f)
+        alg += d.get("alg", [])
+        seq += d.get("seq", [])
+    return alg, seq
 
 
 def gen_cases(rng, n, tier):
     mode = inplace_mode()
     out, shrunk = [], 0
+    for ops in corpus()[1]:
+        c = make_case(ops, mode)
+        c["kind"] = "corpus/" + c["kind"]
+        out.append(c)
     for _ in range(n):
         c = make_case(gen_ops(rng), mode, shrink_ok=shrunk < 1)
         shrunk += 1 if "shrunk_ops" in c["input"] else 0
@@ -537,7 +554,7 @@ def gen_cases(rng, n, tier):
 # second stream: the algebra alone
 # ---------------------------------------------------------------------------------------------
 ALG_HEADER = CORR_HEADER
-ALG_N = {"quick": 600, "thorough": 12000}
+ALG_N = {"quick": 600, "thorough": 10000}
 
 
 def make_alg_case(e, mode):
@@ -555,13 +572,17 @@ def make_alg_case(e, mode):
         coq = "{| g_mode := %s; g_expr := %s; g_keys := [999%%nat]; g_vals := [] |}" % (mode, expr_coq(e))
     case = dict(input=inp, impl=impl, coq=coq, ambiguous=False, kind="alg/" + e[0], nontrivial=e[0] not in ("none",))
     why = monitor(case)
-    case["sig"] = KNOWN_SIG_INPLACE if (why and why.startswith(KNOWN_SIG_INPLACE)) else e
+    case["sig"] = e
     return case
 
 
 def extra_streams(rng, tier):
     mode = inplace_mode()
     cases = []
+    for e in corpus()[0]:
+        c = make_alg_case(e, mode)
+        c["kind"] = "corpus/" + c["kind"]
+        cases.append(c)
     for _ in range(ALG_N[tier]):
         nst = rng.randint(1, 8)
         sts = rng.sample(STATION_POOL, nst)
@@ -597,8 +618,8 @@ def check_algebra(e, items):
     if bad:
         s = sorted(bad)[0]
         msg = "coefficient of %s in the Current is %r, the algebra gives %s" % (s, got.get(s, 0.0), want.get(s, F(0)))
-        if has_lossy_inplace(e) and inplace_mode() == "InplaceReindex":
-            return KNOWN_SIG_INPLACE + ": " + msg
+        if has_lossy_inplace(e):
+            msg += " (the tree has an in-place sum/difference whose right operand brings a station the left one lacks; cf. corpus/C12)"
         return msg
     return None
 
@@ -632,7 +653,6 @@ def monitor(case):
         return check_algebra(case["input"]["expr"], impl["items"])
     ops, obs = case["input"]["ops"], case["impl"]
     ref = Ref()
-    first_known = None
     for step_no, (o, b) in enumerate(zip(ops, obs)):
         k = o[0]
         where = "op %d %s: " % (step_no, k)
@@ -651,10 +671,7 @@ def monitor(case):
                 return where + "building the Current raised %s" % b["err"]
             r = check_algebra(o[1] if k == "add" else o[2], items)
             if r:
-                if r.startswith(KNOWN_SIG_INPLACE):
-                    first_known = first_known or (KNOWN_SIG_INPLACE + ": " + where + r[len(KNOWN_SIG_INPLACE) + 2:])
-                else:
-                    return where + r
+                return where + r
             coeffs = {s: F(v) for s, v in items}      # alignment is judged against the Current actually passed
             unknown = [s for s in coeffs if s not in ref.stations]
             if k == "update" and o[1] not in ref.names():
@@ -740,7 +757,7 @@ def monitor(case):
                             r, c, val[r][c], i, ref.live[i][0], t, want)
                     if b["full"] is not None and not close(b["full"][i][t], val[r][c]):
                         return where + "subset result [%d][%d] differs from the full result [%d][%d]" % (r, c, i, t)
-    return first_known
+    return None
 
 
 # ---------------------------------------------------------------------------------------------
@@ -781,7 +798,7 @@ def search(rng, budget_s, broken):
             sts = rng.sample(STATION_POOL, rng.randint(1, 8))
             c = make_alg_case(rand_expr(rng, sts, rng.randint(1, 4)), mode)
             r = monitor(c)
-            if r and not r.startswith(KNOWN_SIG_INPLACE):
+            if r:
                 return dict(case=c["input"], impl=c["impl"], why=r)
     return None
 
@@ -797,24 +814,11 @@ def replay(w):
 
 
 def replay_known(entry):
-    """re-run the witness of an open finding on the implementation; returns what still fails (or None)"""
+    """re-run the witness of an open finding on the implementation; returns what still fails (or None).
+    C12 has no open finding at present; an entry with an `expr` or `ops` witness is replayed with the monitor."""
     w = entry.get("witness", {})
-    if entry.get("sig") == KNOWN_SIG_INPLACE:
-        e = w["expr"]
-        try:
-            items = cur_items(build(e))
-        except Exception as ex:  # noqa
-            return "raised %s" % type(ex).__name__
-        want = algebra(e)
-        got = dict(items)
-        if any(not close(want.get(s, F(0)), got.get(s, 0.0)) for s in set(want) | set(got)):
-            return "in-place sum still cut back to the left operand's index: %r" % items
-        return None
-    return "unknown finding"
-
-
-# the _refuted theorem is compiled only while the defect is present in the tree under test
-try:
-    EXTRA_PROP_FILES = ["coq/Props/C12_findings.v"] if inplace_mode() == "InplaceReindex" else []
-except Exception:  # noqa
-    EXTRA_PROP_FILES = []
+    if "expr" in w:
+        return monitor(make_alg_case(w["expr"], inplace_mode()))
+    if "ops" in w:
+        return replay(dict(case=dict(ops=w["ops"])))
+    return "not re-checked"
